@@ -243,13 +243,16 @@ let () =
   let dropped_ever : (string, unit) Hashtbl.t = Hashtbl.create 1024 in
   let returned_ever : (string, unit) Hashtbl.t = Hashtbl.create 1024 in
   let cfg_pending : int option ref = ref None in
+  let in_dry = ref false and dry_ok = ref true in     (* panic traces: did the uninjected run of the operation agree with the model? *)
   let lineno = ref 0 in
   (try while true do
     let line = input_line stdin in
     incr lineno;
     if String.length line >= 3 then begin
     let tag = String.sub line 0 3 in
-    if tag = "CFG" then begin
+    if tag = "# D" then begin in_dry := true; dry_ok := true end
+    else if tag = "# I" then in_dry := false
+    else if tag = "CFG" then begin
       match split ' ' line with
       | _ :: slot :: _mx :: _cap :: _hk :: es :: vss :: _ ->
         let slot = int_of_string slot in
@@ -310,6 +313,7 @@ let () =
            (match rest, post.res with
             | ["reserve"; k], "unit" | ["try_reserve"; k; _], "res_ok" ->
               reqs.(slot) <- Z.max reqs.(slot) (Z.add (Z.of_int (List.length pre.st.ents)) (Z.of_string k))
+            | ["clone"; d], _ -> (try let d = int_of_string d in peaks.(d) <- List.length pre.st.ents; reqs.(d) <- z_of_n pre.cap with _ -> ())
             | _ -> ())
          | Some pre ->
            (* distinctness / non-triviality of the case *)
@@ -357,7 +361,8 @@ let () =
                 else (match List.nth_opt pts nth with Some pp when st_eq pp.pst post.st -> Some pp | _ -> None) in
               let ocs = List.concat_map (fun (t, ru) -> [ { o_tomb = n_of_int t; o_reuse = ru; o_alloc = true } ]) cands in
               let found = List.find_map matches ocs in
-              chk "panic_state" (found <> None && post.res = "panic");
+              if !dry_ok then chk "panic_state" (found <> None && post.res = "panic")
+              else bump dist "panic_state_not_judged_model_mismatch_in_normal_run";
               (match found with
                | Some pp ->
                  (* what unwinding drops must have been dropped; nothing dropped is still held *)
@@ -430,7 +435,8 @@ let () =
                  tally "hashes_eq" (Z.equal (z_of_n post.hashes) (z_of_n evs.e_hashes));
                  chk "visits" (visits_string evs.e_visits = post.visits);
                  (* B-level simulation of the same step on the pointer graph *)
-                 (match gstate_of pre with
+                 let abstract_ok = not (List.exists (fun c -> List.mem c ["res"; "keyset"; "order"; "ents"; "sizes"; "cur"; "max"]) !failed) in
+                 (match (if abstract_ok then gstate_of pre else None) with
                   | None -> ()
                   | Some g0 ->
                     let addr_e (en : entry) = addr_of pre en.ek.ktok in
@@ -498,7 +504,7 @@ let () =
               if not tainted.(slot) then begin chk "mon_c01" (c01_mon !e post.st); chk "mon_c02" (c02_mon !e post.st) end;
               chk "mon_c04" (c04_nodup_mon post.st);
               (match parse_out post.res with
-               | Some o -> chk "mon_c06" (c06_mon pre.st p o post.dropped post.st);
+               | Some o -> if post.res <> "panic" then chk "mon_c06" (c06_mon pre.st p o post.dropped post.st);
                  List.iter (fun t -> Hashtbl.replace returned_ever (s_of_n t) ()) (returned p o)
                | None -> ());
               chk "mon_c20" (c20_mon pre.st p post.hashes moved post.st);
@@ -565,6 +571,7 @@ let () =
                      if kind <> 2 then Hashtbl.replace returned_ever (s_of_n k.ktok) ();
                      if kind <> 1 then Hashtbl.replace returned_ever (s_of_n v.vtok) () | None -> ()) l | _ -> ());
               if !failed <> [] then Buffer.add_string detail (Printf.sprintf "  model: %s|drops=%s\n" (res_string ~kind o) (nlist_string (sorted_n evs.e_dropped)))));
+           if !in_dry && List.exists (fun c -> List.mem c ["res"; "keyset"; "order"; "ents"; "sizes"; "cur"; "max"; "fault"; "drops"]) !failed then dry_ok := false;
            if !failed <> [] then begin
              incr fails;
              if !fails <= 200 then begin
